@@ -230,8 +230,8 @@ theorem c10_manager_negzero_saved :
 
 /-- **Counterexample for the pre-repair change detection** (`last_snapshot == Some(&snapshot)`
 alone): it finds the two snapshots equal, skips the write and reports success; the file still
-holds `+0.0`.  (This is the routine /repo had before `fix: C10-negzero-not-saved`; the model
-distinguishes it from the repaired one.) -/
+holds `+0.0`.  (This is the routine /repo had before the repair of finding C10-negzero-not-saved;
+the model distinguishes it from the repaired one.) -/
 theorem c10_manager_partialeq_counterexample :
     WfSnapshot exZero ∧ WfSnapshot exNegZero ∧ exZero ≠ exNegZero ∧
     ((Mgr.savePartialEq ⟨none, ⟨none, none⟩⟩ exZero).1.savePartialEq exNegZero).2 = .ok () ∧
